@@ -366,18 +366,12 @@ Definition input_at (r : regex) (p : N) : rres rinput :=
 Definition inputs_of (r : regex) (firstpos : list N) : rres (list rinput) :=
   omap (input_at r) (filter (fun p => negb (N.eqb p (r_end r))) firstpos).
 
-(** The [for inp in inputs] loop of [do_check_ambiguous_inputs_tail_only_subword]. *)
-Fixpoint scan_inputs (inputs : list rinput) (path_prev : option rinput) (prev : option rinput)
-  : rres (option rinput) :=
-  match inputs with
-  | [] => Ok prev
-  | inp :: rest =>
-      match path_prev with
-      | Some p => Err (UnboundedMatchable (rinput_span p) (rinput_span inp))
-      | None =>
-          do st <- is_star_subword inp;
-          scan_inputs rest path_prev (if st then Some inp else prev)
-      end
+(** The test at the top of [do_check_ambiguous_inputs_tail_only_subword]: something (the first
+    input of this position set) follows the unbounded item met on the way here. *)
+Definition first_clash (path_prev : option rinput) (inputs : list rinput) : option rerror :=
+  match path_prev, inputs with
+  | Some p, inp :: _ => Some (UnboundedMatchable (rinput_span p) (rinput_span inp))
+  | _, _ => None
   end.
 
 Definition opt_or {A} (a b : option A) : option A := match a with Some _ => a | None => b end.
@@ -386,25 +380,34 @@ Section TailOnly.
   Variable r : regex.
   Variable fw : list (N * list N).
 
+  (** Only what follows the unbounded item itself is ambiguous: [prev] is computed per position
+      (after [visited.insert]; [r_end] is always visited, so the index is in range for a
+      well-formed regex). *)
   Fixpoint tail_only (fuel : nat) (firstpos : list N) (path_prev : option rinput)
            (visited : list N) : rres (list N) :=
     match fuel with
     | O => OutOfFuel
     | S f =>
         do inputs <- inputs_of r firstpos;
-        do prev <- scan_inputs inputs path_prev None;
-        (fix each (ps : list N) (visited : list N) : rres (list N) :=
-           match ps with
-           | [] => Ok visited
-           | p :: rest =>
-               if memN p visited then each rest visited
-               else match assocN p fw with
-                    | None => each rest visited
-                    | Some follow =>
-                        do v1 <- tail_only f follow (opt_or path_prev prev) (p :: visited);
-                        each rest v1
-                    end
-           end) firstpos visited
+        match first_clash path_prev inputs with
+        | Some e => Err e
+        | None =>
+            (fix each (ps : list N) (visited : list N) : rres (list N) :=
+               match ps with
+               | [] => Ok visited
+               | p :: rest =>
+                   if memN p visited then each rest visited
+                   else match assocN p fw with
+                        | None => each rest visited
+                        | Some follow =>
+                            do inp <- input_at r p;
+                            do st <- is_star_subword inp;
+                            do v1 <- tail_only f follow
+                                       (opt_or path_prev (if st then Some inp else None)) (p :: visited);
+                            each rest v1
+                        end
+               end) firstpos visited
+        end
     end.
 End TailOnly.
 
